@@ -165,6 +165,7 @@ func (ch *serverChannel) Receive(ctx async.Context) ([]byte, status.Status) {
 		case ok:
 			return msg, status.OK
 		}
+		verifYield(18)
 
 		select {
 		case <-ctx.Wait():
